@@ -136,9 +136,17 @@ def gen_unit_cases(r, n, tc):
                 cases.append(("PC 1 %s %s" % (sch, G.hx(raw)), meta))
             else:
                 cases.append(("PF 1 %s %s" % (sch, G.hx(c)), meta))
-        elif m < 0.965:
+        elif m < 0.94:
             sch, c, tag = G.gen_nested_case(r)
             cases.append(("NP 1 %s %s" % (sch, G.hx(c)), {"kind": "NP", "tag": tag, "conf": c}))
+        elif m < 0.965:
+            # one parser object over a sequence of 2-4 configurations (accepted, rejected at any depth, misspelt)
+            seq = [G.gen_nested_case(r) for _ in range(r.randint(2, 4))]
+            sch = seq[0][0]
+            cmd = r.choice(["MS", "MS", "PS"])
+            confs = [c if cmd == "MS" else py_strip_comments(c) for _, c, _ in seq]
+            cases.append(("%s 1 %s %s" % (cmd, sch, "|".join(G.hx(c) for c in confs)),
+                          {"kind": cmd, "tags": [t for _, _, t in seq], "confs": confs, "schema": sch}))
         else:
             d = bytes(r.choice(b"ab  ,,x") for _ in range(r.randint(0, 10)))
             dl = r.choice([b" ", b",", b" ", b"x"])
@@ -441,6 +449,81 @@ MODULE_WITNESSES = [
 ]
 
 
+def cv_block(name, atom, pad=0, bad=None):
+    extra = ["  lowerBoundary -10.0", "  upperBoundary 10.0", "  outputAppliedForce on", "  expandBoundaries off", "  outputEnergy off",
+             "  hardLowerBoundary off", "  hardUpperBoundary off", "  outputValue on"][:pad]
+    L = ["colvar {", "  name %s" % name, "  width 0.5"] + extra + ([bad] if bad else []) + [
+        "  distanceZ {", "    main {", "      atomNumbers %d" % atom, "    }", "    ref {", "      dummyAtom (0,0,0)", "    }", "    axis (0,0,1)", "  }", "}"]
+    return "\n".join(L) + "\n"
+
+
+def bias_block(cv, bad=None):
+    L = ["harmonic {", "  name h%s" % cv, "  colvars %s" % cv, "  centers 0.25", "  forceConstant 4.0"] + ([bad] if bad else []) + ["}"]
+    return "\n".join(L) + "\n"
+
+
+def rejected_config(r, name, atom):
+    """a configuration that the module refuses, at a random stage/depth; uses the given names only"""
+    kind = r.choice(["global", "colvar", "component", "group", "bias", "top", "brace", "value"])
+    pad = r.randint(0, 8)
+    if kind == "global":
+        return kind, "colvarsTrajFrequency abc\n" + cv_block(name, atom, pad) + bias_block(name)
+    if kind == "colvar":
+        return kind, cv_block(name, atom, pad, "  wdth 0.5") + bias_block(name)
+    if kind == "component":
+        return kind, cv_block(name, atom, pad).replace("    axis (0,0,1)\n", "    axis (0,0,1)\n    fooBar 1\n") + bias_block(name)
+    if kind == "group":
+        return kind, cv_block(name, atom, pad).replace("      atomNumbers %d\n" % atom, "      atomNumbers %d\n      fooBar 2\n" % atom) + bias_block(name)
+    if kind == "bias":
+        return kind, cv_block(name, atom, pad) + bias_block(name, "  forceKonstant 1.0")
+    if kind == "top":
+        return kind, cv_block(name, atom, pad) + bias_block(name) + "colvarsRestartFrequenzy 50\n"
+    if kind == "value":
+        return kind, cv_block(name, atom, pad).replace("width 0.5", "width 0.5abc") + bias_block(name)
+    return kind, cv_block(name, atom, pad) + bias_block(name).rstrip("}\n") + "\n"
+
+
+def last_config(r):
+    """the configuration whose verdict is examined: variable y, bias hy; valid or with a misspelt keyword somewhere"""
+    pad = r.randint(0, 4)
+    cvb, bb = cv_block("y", 2, pad), bias_block("y")
+    kind = r.choice(["valid", "typo-start", "typo-between", "typo-end", "typo-end", "typo-in-bias", "typo-in-colvar", "bias-only-typo"])
+    typo = r.choice(["colvarsRestartFrequenzy 50", "fooBar 1", "colvarTrajFrequency 5"])
+    if kind == "valid":
+        return kind, cvb + bb
+    if kind == "typo-start":
+        return kind, typo + "\n" + cvb + bb
+    if kind == "typo-between":
+        return kind, cvb + typo + "\n" + bb
+    if kind == "typo-end":
+        return kind, cvb + bb + typo + "\n"
+    if kind == "typo-in-bias":
+        return kind, cvb + bias_block("y", "  forceKonstant 1.0")
+    if kind == "typo-in-colvar":
+        return kind, cv_block("y", 2, pad, "  wdth 1.0") + bb
+    return kind, cvb + bb + typo + "\n"
+
+
+def gen_module_sequence(r):
+    earlier, kinds = [], []
+    for name, atom in [("x", 1), ("z", 3)][:r.randint(1, 2)]:
+        k, c = rejected_config(r, name, atom)
+        if r.random() < 0.2:
+            k, c = "accepted", cv_block(name, atom, r.randint(0, 3)) + bias_block(name)
+        earlier.append(c); kinds.append(k)
+    lk, last = last_config(r)
+    return earlier, last, "+".join(kinds) + " then " + lk
+
+
+# the two situations of the seeded change C09_1, with other names for the last configuration
+SEQ_WITNESSES = [
+    ([cv_block("x", 1, 6, "  wdth 0.5") + bias_block("x") + "colvarsRestartFrequenzy 50\n"],
+     cv_block("y", 2, 0) + bias_block("y") + "colvarsRestartFrequenzy 50\n", "colvar(long block) then typo-end"),
+    ([cv_block("x", 1, 0) + bias_block("x", "  forceKonstant 1.0")], bias_block("x").replace("hx", "hy"), "bias then bias-only", [cv_block("x", 1, 0)]),
+    ([cv_block("x", 1, 8, "  wdth 0.5") + bias_block("x")], cv_block("y", 2, 0) + "fooBar 1\n" + bias_block("y"), "colvar(long block) then typo-between"),
+]
+
+
 def dyad_positions(r, natoms):
     return ["pos %d %s %s %s" % (i + 1, V.hexf(V.dyadic(r, -3, 3) + i), V.hexf(V.dyadic(r, -3, 3)), V.hexf(V.dyadic(r, -3, 3) - i))
             for i in range(natoms)]
@@ -685,6 +768,9 @@ def check(run):
         for l in open(cp):
             l = l.strip()
             if l and not l.startswith("#"):
+                if l.split()[0] in ("PS", "MS"):
+                    cases.append((l, {"kind": l.split()[0], "tags": ["corpus"], "schema": l.split()[2], "confs": [G.unhx(x) for x in l.split()[3].split("|")]}))
+                    continue
                 cases.append((l, {"kind": l.split()[0], "stream": "corpus", "tag": "corpus", "schema": l.split()[2] if l.split()[0] in ("PF", "PC") else "",
                                   "conf": G.unhx(l.split()[3]) if l.split()[0] == "PF" else b"", "raw": G.unhx(l.split()[1]) if l.split()[0] == "SC" else b"",
                                   "data": b"", "delim": b""}))
@@ -708,6 +794,9 @@ def check(run):
         if kind == "KL":
             nontriv = io.startswith("found") or io.startswith("error")
             run.dist("unit:KL:" + meta.get("stream", "?").split(":")[0])
+        elif kind in ("MS", "PS"):
+            nontriv = "reject" in io and "accept" in io
+            run.dist("unit:%s:%s" % (kind, len(meta["confs"])))
         elif kind in ("PF", "PC", "NP"):
             nontriv = io.startswith("accept") or meta.get("tag") not in ("valid", "bytes", "corpus")
             run.dist("unit:%s:%s:%s" % (kind, meta.get("tag"), io.split()[0]))
@@ -741,6 +830,14 @@ def check(run):
                 bad = ("layout:key_lookup", "key_lookup of %r in %r gives %s, the value written is %r" % (G.unhx(w[2]), G.unhx(w[1]), io, meta["expect"]))
         elif kind in ("PF", "PC") and meta.get("tag") != "corpus":
             bad = flat_oracle(meta, io) or value_oracle(meta, io)
+        elif kind == "MS":
+            # verdict on configuration k == verdict of a fresh parser on it alone (asked from the implementation)
+            _, alone, _ = V.run_lines(unit, ["NP 1 %s %s" % (meta["schema"], G.hx(c)) for c in meta["confs"]])
+            if io.split()[:-1] != alone:
+                bad = ("sequence:verdict-depends-on-history", "verdicts %s of a sequence of configurations on one parser object differ from the verdicts %s of fresh parsers (%s)" % (
+                    io.split()[:-1], alone, meta["tags"]))
+            elif not io.endswith(" empty"):
+                bad = ("sequence:registry-not-empty", "the parser object's registry is not empty after a sequence of read_config_string calls (%s)" % meta["tags"])
         elif kind == "NP":
             if meta["tag"] in ("misspelt", "wrong-level", "unknown-keyword", "brace") and io == "accept":
                 bad = ("strict:nested:%s-accepted" % meta["tag"], "a nested configuration with a %s mutation is accepted: %r" % (meta["tag"], meta["conf"]))
@@ -749,7 +846,7 @@ def check(run):
         if bad:
             run.violation(bad[0], bad[1], {"kind": "unit", "case": c, "impl": io, "model": mo})
         if io != mo:
-            comp = "unit:" + {"KL": "key_lookup", "CB": "braces", "SC": "comments", "SS": "split_string", "PF": "flat", "PC": "flat", "NP": "nested"}.get(kind, kind)
+            comp = "unit:" + {"KL": "key_lookup", "CB": "braces", "SC": "comments", "SS": "split_string", "PF": "flat", "PC": "flat", "NP": "nested", "MS": "sequence", "PS": "sequence"}.get(kind, kind)
             if kind in ("PF", "PC"):
                 # is it the pinned (lenient) value rule?  then the repaired defect is back: name it
                 rcl, ml, _ = V.run_lines(model, [c.replace(kind + " 1 ", kind + " 0 ", 1)])
@@ -851,6 +948,47 @@ def check(run):
         if usable == 1:
             run.sample({"module_base": name, "config": conf.decode("latin1").split("\n")[:12], "observables": base_obs.split("\n")[:6]})
     run.cov["correspondence"]["module_bases_usable"] = usable
+    # sequences of configurations sent to ONE module instance: the verdict on the last one and the objects it creates
+    # must be those of a fresh module given only that configuration (earlier ones use other names)
+    nseq = 30 if quick else 400
+    seqs = list(SEQ_WITNESSES) + [gen_module_sequence(r) for _ in range(nseq)]
+    for sq in seqs:
+        earlier, last, descr = sq[0], sq[1], sq[2]
+        fresh_prefix = sq[3] if len(sq) > 3 else []
+        head = ["natoms 4", "totalforces 1"] + ["pos %d %d %d %d" % (i + 1, i, 2 * i, 3 * i + 1) for i in range(4)] + ["new", "show tf 0 af 0"]
+        Ls = head + ["confighex %s" % G.hx(c.encode()) for c in earlier] + ["echo LAST", "confighex %s" % G.hx(last.encode()), "step"]
+        Lf = head + ["confighex %s" % G.hx(c.encode()) for c in fresh_prefix] + ["echo LAST", "confighex %s" % G.hx(last.encode()), "step"]
+        rcs, os_, es = run_scn(unit, d, "seq", "\n".join(Ls) + "\n")
+        rcf, of, ef = run_scn(unit, d, "seqf", "\n".join(Lf) + "\n")
+        run.count("seq:" + descr + ":" + G.hx(last.encode())[:24], True)
+        run.dist("module:sequence:%d" % (len(earlier) + 1))
+        rp = {"kind": "sequence", "scenario": "\n".join(Ls) + "\n", "fresh_scenario": "\n".join(Lf) + "\n", "what": descr,
+              "configs": list(earlier) + [last]}
+        if rcs != 0 or "STEP" not in os_:
+            site = "hang" if rcs == 124 else crash_site(unit, d, "\n".join(Ls) + "\n", es, None)
+            run.violation("sequence:crash:" + site, "the process died (rc=%d) on a sequence of configurations sent to one module instance (%s) in %s" % (rcs, descr, site), rp)
+            continue
+        def last_part(o):
+            o = o.split("echo LAST", 1)[-1]
+            st = conf_status(o)
+            m0 = re.search(r"CONFIG err=\S+ ncv=(\d+) nbias=(\d+)", o)
+            objs = sorted(l for l in o.split("\n") if l.startswith("CV y ") or l.startswith("BIAS hy "))
+            return st, (int(m0.group(1)), int(m0.group(2))) if m0 else None, objs
+        def before(o):
+            ms = re.findall(r"CONFIG err=\S+ ncv=(\d+) nbias=(\d+)", o.split("echo LAST", 1)[0])
+            return (int(ms[-1][0]), int(ms[-1][1])) if ms else (0, 0)
+        sts, ns, objs_s = last_part(os_)
+        stf, nf, objs_f = last_part(of)
+        b = before(os_)
+        bf = before(of)
+        if nf:
+            nf = (nf[0] - bf[0], nf[1] - bf[1])
+        if sts != stf:
+            run.violation("sequence:verdict-depends-on-history", "the last configuration of a sequence (%s) is %s by a module that saw the earlier ones and %s by a fresh module" % (
+                descr, "accepted" if sts == "ok" else "refused (%s)" % sts, "accepted" if stf == "ok" else "refused (%s)" % stf), rp)
+        elif ns and nf and (ns[0] - b[0], ns[1] - b[1]) != nf or objs_s != objs_f:
+            run.violation("sequence:objects-depend-on-history", "the objects created by the last configuration of a sequence (%s) differ from those of a fresh module: %s/%s vs %s/%s" % (
+                descr, ns, objs_s[:2], nf, objs_f[:2]), rp)
     # whole-module witnesses of the repaired defects
     for sig, natoms, conf, must_accept, text in MODULE_WITNESSES:
         pos = ["pos %d %d %d %d" % (i + 1, i, 2 * i, 3 * i + 1) for i in range(natoms)]
@@ -949,6 +1087,12 @@ def replay(path):
         for f in glob.glob(os.path.join(V.REPO, "tests", "input_files", "*.*")):
             shutil.copy(f, d)
         print(run_scn(unit, d, "replay", scenario(rp["natoms"], rp["positions"], rp["config"].encode("latin1")))[1])
+    elif rp.get("kind") == "sequence":
+        d = V.scratch("C09r")
+        print("--- one module instance:")
+        print(run_scn(unit, d, "replay", rp["scenario"])[1])
+        print("--- fresh module:")
+        print(run_scn(unit, d, "replayf", rp["fresh_scenario"])[1])
     elif rp.get("kind") == "bytes":
         d = V.scratch("C09r")
         for f in glob.glob(os.path.join(V.REPO, "tests", "input_files", "*.*")):
